@@ -4,7 +4,7 @@ CONSTANTS
   MaxPerThread = 4
   MaxTotal = 4
   PoisonRecovery = TRUE
-  Alphabet = {"base","opts2","copy","dot","other","sother","json","qmiss","qbad","smiss","sbad","sext","both2","rel1","rel2"}
+  Alphabet = {"base","invalid","deep","opts2","copy","dot","other","sother","json","qmiss","qbad","smiss","sbad","sext","both2","rel1","rel2"}
   Threads <- MCThreads
   PlanSet <- MCPlans
   CallDef <- MCCalls
